@@ -476,12 +476,12 @@ func main() {
 					mu.Unlock()
 					if strings.Contains(wo.errLine, "watchdog") {
 						if fr, ok := codeMutexDeadlock(wo.stderr); ok {
-							// Engine.mu (engine.lock hooks) and handle.mu (simhook.Mutex) are tracked by the kernel, which
+							// Engine.mu (engine.lock hooks) and handle.mu (simhook.Locking/Unlocked hooks) are tracked by the kernel, which
 							// never lets a task wait inside Lock and reports a deadlock on them itself, replayably. A
 							// goroutine found inside sync.Mutex.Lock therefore waits for a mutex the simulator does not
 							// know (a new one, or a new Engine.mu section without the hook) whose holder it has parked:
 							// that says nothing about the code under test.
-							trouble("worker: %s\na goroutine of the code under test waits inside sync.Mutex.Lock (%s) for a mutex the simulator does not track: declare it as simhook.Mutex (or put the engine.lock / engine.unlocked hooks around the new section). %s\n%s", wo.errLine, fr, strings.Join(lockDiscipline(), "; "), strings.Join(tailLines(wo.stderr, 60), "\n"))
+							trouble("worker: %s\na goroutine of the code under test waits inside sync.Mutex.Lock (%s) for a mutex the simulator does not track: put simhook.Locking/Unlocked (for Engine.mu: the engine.lock / engine.unlocked hooks) around the new section. %s\n%s", wo.errLine, fr, strings.Join(lockDiscipline(), "; "), strings.Join(tailLines(wo.stderr, 60), "\n"))
 						}
 						trouble("worker: %s\n%s", wo.errLine, strings.Join(tailLines(wo.stderr, 60), "\n"))
 					}
@@ -1050,8 +1050,13 @@ func lockDiscipline() []string {
 			for i, l := range lines {
 				t := strings.TrimSpace(l)
 				if strings.Contains(t, "sync.Mutex") || strings.Contains(t, "sync.RWMutex") {
-					if !(f == "pkg/engine/engine.go" && strings.HasPrefix(t, "mu ")) {
+					if !((f == "pkg/engine/engine.go" || f == "pkg/search/searchctl/iterative.go") && strings.HasPrefix(t, "mu ")) {
 						out = append(out, fmt.Sprintf("%s:%d declares a mutex the simulator does not track (%s)", f, i+1, t))
+					}
+				}
+				if f == "pkg/search/searchctl/iterative.go" && strings.HasSuffix(t, "h.mu.Lock()") {
+					if i == 0 || strings.TrimSpace(lines[i-1]) != `simhook.Locking(&h.mu)` {
+						out = append(out, fmt.Sprintf("%s:%d takes handle.mu without simhook.Locking in front", f, i+1))
 					}
 				}
 				if f == "pkg/engine/engine.go" && strings.HasSuffix(t, "e.mu.Lock()") {
